@@ -23,7 +23,7 @@ ASSUMPTIONS = GEO_ASSUMPTIONS + ["bounding boxes of translated/rotated domains a
 
 
 def budget(tier):
-    return {"cases": 4000 if tier == "quick" else 120000, "wall": 600 if tier == "quick" else 3300, "shrink": 60, "det_legs": 6}
+    return {"cases": 4000 if tier == "quick" else 120000, "wall": 600 if tier == "quick" else 3000, "shrink": 60, "det_legs": 6}
 
 
 def gen_case(seed, tier="quick"):
